@@ -65,6 +65,37 @@ class Case:
                 "literal_negative_step": self.litstep}
 
 
+def parse5(src):
+    """(FileContainer, program Routine): generated sources may start with the module of callees"""
+    from psyclone.psyir.frontend.fortran import FortranReader
+    from psyclone.psyir.nodes import Routine
+    psyir = FortranReader().psyir_from_source(src)
+    progs = [r for r in psyir.walk(Routine) if r.is_program]
+    return psyir, progs[0]
+
+
+def lower_calls(routine):
+    """MiniF has no calls: `call bump(x)` / `call addto(x, d)` (module c05_mod of c05_gen) are replaced
+    by the assignments their bodies perform, `x = 2 * x` / `x = x + d`.  A call argument is a
+    READWRITE access for PSyclone; the model sees the read followed by the write."""
+    from psyclone.psyir.nodes import Assignment, BinaryOperation, Call, Literal
+    from psyclone.psyir.symbols import INTEGER_TYPE
+    for call in routine.walk(Call):
+        if type(call) is not Call:      # IntrinsicCall (MAX, MOD, ...) is an expression
+            continue
+        name = call.routine.name.lower()
+        args = call.arguments if hasattr(call, "arguments") else call.children[1:]
+        if name == "bump" and len(args) == 1:
+            new = Assignment.create(args[0].copy(), BinaryOperation.create(
+                BinaryOperation.Operator.MUL, Literal("2", INTEGER_TYPE), args[0].copy()))
+        elif name == "addto" and len(args) == 2:
+            new = Assignment.create(args[0].copy(), BinaryOperation.create(
+                BinaryOperation.Operator.ADD, args[0].copy(), args[1].copy()))
+        else:
+            raise minif.Unsupported("call " + name)
+        call.replace_with(new)
+
+
 def body_loops(routine):
     from psyclone.psyir.nodes import Loop
     return [l for l in routine.walk(Loop) if l.variable.name in G.LOOPVARS]
@@ -84,7 +115,7 @@ def literalise_steps(routine):
 def find_target(kind, routine, target):
     from psyclone.psyir.nodes import Assignment, Loop
     loops = body_loops(routine)
-    if kind in ("chunk", "swap", "hoistbound", "tile2d"):
+    if kind in ("chunk", "swap", "hoistbound", "tile2d", "replaceiv"):
         return loops[target[0]]
     if kind == "fuse":
         return loops[target[0]], loops[target[1]]
@@ -98,7 +129,7 @@ def find_target(kind, routine, target):
 def enumerate_targets(kind, routine):
     from psyclone.psyir.nodes import Assignment, Loop
     loops = body_loops(routine)
-    if kind in ("chunk", "swap", "hoistbound", "tile2d"):
+    if kind in ("chunk", "swap", "hoistbound", "tile2d", "replaceiv"):
         return [[k] for k in range(len(loops))]
     if kind == "fuse":
         out = []
@@ -116,7 +147,7 @@ def transformation(kind):
     from psyclone.psyir import transformations as T
     return {"chunk": T.ChunkLoopTrans, "fuse": T.LoopFuseTrans, "swap": T.LoopSwapTrans,
             "hoist": T.HoistTrans, "hoistbound": T.HoistLoopBoundExprTrans,
-            "tile2d": T.LoopTiling2DTrans}[kind]()
+            "tile2d": T.LoopTiling2DTrans, "replaceiv": T.ReplaceInductionVariablesTrans}[kind]()
 
 
 def loop_parts(loop, names):
@@ -138,37 +169,67 @@ def run_real(case):
     from psyclone.psyir.nodes import Loop, Reference
     from psyclone.psyir.transformations import TransformationError
     try:
-        psyir, routine = minif.parse_program(case.src)
+        psyir, routine = parse5(case.src)
         if case.litstep:
             literalise_steps(routine)
         names = case.names = minif.Names()
-        case.orig_prog = minif.export_stmt(routine, names)
+        has_calls = "call " in case.src
+        if has_calls:
+            # model input and the original program come from a second parse with the calls lowered
+            _, lowered = parse5(case.src)
+            if case.litstep:
+                literalise_steps(lowered)
+            lower_calls(lowered)
+            case.orig_prog = minif.export_stmt(lowered, names)
+        else:
+            lowered = routine
+            case.orig_prog = minif.export_stmt(routine, names)
         tgt = find_target(case.kind, routine, case.target)
+        def twin(node):     # the node at the same tree position in the call-free tree
+            path = []
+            while node is not routine:
+                path.append(node.position)
+                node = node.parent
+            out = lowered
+            for k in reversed(path):
+                out = out.children[k]
+            return out
+        mtgt = tuple(twin(t) for t in tgt) if isinstance(tgt, tuple) else twin(tgt)
         trans = transformation(case.kind)
         kind = case.kind
         if kind == "chunk":
             loop = tgt
-            model_loop = minif.export_stmt(loop, names)
+            model_loop = minif.export_stmt(mtgt, names)
             parent, pos = loop.parent, loop.position
             chunk = 32 if not case.opts else case.opts.get("chunksize", 32)
             case.info = {"step": model_loop[4], "chunk": chunk, "v": loop.variable.name,
                          "hi_mentions_v": loop.variable.name in [r.name for r in loop.stop_expr.walk(Reference)]}
         elif kind == "fuse":
             l1, l2 = tgt
-            m1, m2 = minif.export_stmt(l1, names), minif.export_stmt(l2, names)
+            m1, m2 = minif.export_stmt(mtgt[0], names), minif.export_stmt(mtgt[1], names)
             adjacent = abs(l1.position - l2.position) == 1
             reversed_ = l2.position < l1.position
             case.info = {"reversed": reversed_, "v1": l1.variable.name, "v2": l2.variable.name}
         elif kind == "hoistbound":
             loop = tgt
-            model_loop = minif.export_stmt(loop, names)
+            model_loop = minif.export_stmt(mtgt, names)
             parent, pos = loop.parent, loop.position
             case.info = {}
+        elif kind == "replaceiv":
+            loop = tgt
+            parent, pos = loop.parent, loop.position
+            n_siblings = len(parent.children)
+            mloop = mtgt
+            hdr = loop_parts(mloop, names)
+            kids = children_sx(mloop.loop_body.children, names)
+            case.info = {"v": loop.variable.name, "nested": loop.ancestor(Loop) is not None,
+                         "bounds": [str(x.debug_string()) for x in loop.children[:3]],
+                         "header_vars": sorted({r.name for b in loop.children[:3] for r in b.walk(Reference)})}
         elif kind in ("swap", "tile2d"):
             loop = tgt
             parent, pos = loop.parent, loop.position
-            kids = children_sx(loop.loop_body.children, names)
-            hdr = loop_parts(loop, names)
+            kids = children_sx(mtgt.loop_body.children, names)
+            hdr = loop_parts(mtgt, names)
             inner = loop.loop_body.children[0] if loop.loop_body.children else None
             case.info = {"v": loop.variable.name,
                          "vi": inner.variable.name if isinstance(inner, Loop) else None}
@@ -185,11 +246,12 @@ def run_real(case):
             direct = node
             while direct.parent is not loop.loop_body:
                 direct = direct.parent
-            kids = list(loop.loop_body.children)
-            k = next(n for n, x in enumerate(kids) if x is direct)
-            hdr = loop_parts(loop, names)
+            k = next(n for n, x in enumerate(loop.loop_body.children) if x is direct)
+            mloop = mtgt.ancestor(Loop)
+            kids = list(mloop.loop_body.children)
+            hdr = loop_parts(mloop, names)
             pre, post = children_sx(kids[:k], names), children_sx(kids[k + 1:], names)
-            s = minif.export_stmt(direct, names)
+            s = minif.export_stmt(kids[k], names)
             case.info = {"v": loop.variable.name, "nested": loop.ancestor(Loop) is not None,
                          "bounds": [str(x.debug_string()) for x in loop.children[:3]]}
         n_before = len(names.ids)
@@ -206,6 +268,9 @@ def run_real(case):
             case.accepted, case.error = False, str(e.value if hasattr(e, "value") else e)
         # ---- observations
         if case.accepted:
+            case.new_src = minif.write_program(psyir)
+            if has_calls:
+                lower_calls(routine)
             if kind == "fuse":
                 case.real_out = norm(minif.export_stmt(l1, names))
             elif kind == "hoist":
@@ -214,10 +279,14 @@ def run_real(case):
             elif kind == "hoistbound":
                 case.real_out = norm(["seqs"] + [minif.export_stmt(c, names)
                                                  for c in parent.children[pos:loop.position + 1]])
-            else:
+            elif kind != "replaceiv":
                 case.real_out = norm(minif.export_stmt(parent.children[pos], names))
+            if kind == "replaceiv":
+                n_new = len(parent.children) - n_siblings
+                case.info["post_assigned"] = [c.lhs.name for c in parent.children[pos + 1:pos + 1 + n_new]]
+                case.real_out = norm(["seqs"] + [minif.export_stmt(c, names)
+                                                 for c in parent.children[pos:pos + 1 + n_new]])
             case.new_prog = minif.export_stmt(routine, names)
-            case.new_src = minif.write_program(psyir)
         # ---- model line
         if kind == "chunk":
             if case.accepted:
@@ -227,6 +296,8 @@ def run_real(case):
             else:
                 out_id, el_id = FRESH0, FRESH0 + 1
             case.line = sx(["chunk", model_loop, chunk, 0, out_id, el_id])
+        elif kind == "replaceiv":
+            case.line = sx(["replaceiv"] + hdr + [kids])
         elif kind == "hoistbound":
             ids = []
             for k, b in enumerate([loop.start_expr, loop.stop_expr, loop.step_expr]):
@@ -367,6 +438,14 @@ def classify(case, diff_labels):
         return "C05-swap-dependence"
     if kind == "hoistbound":
         return None
+    if kind == "replaceiv":
+        # the post-loop assignment `x = rhs(i - step)` is only right after at least one iteration
+        if set(info.get("post_assigned", [])) & set(info.get("header_vars", [])):
+            return "C05-replaceiv-header-reference"
+        t = static_trip(case)
+        if (t is None or t == 0) and info.get("post_assigned"):
+            return "C05-replaceiv-zero-trip"
+        return None
     if kind == "hoist":
         t = static_trip(case)
         if t is None or t == 0:
@@ -405,16 +484,18 @@ def make_cases(chk, n):
                                          ("tile2d", rng.choice([None, {"tilesize": 2}, {"tilesize": 2}, {"tilesize": 3},
                                                                 {"tilesize": 4}, {"tilesize": 0}])),
                                          ("hoistbound", None)]
-        elif x < 0.9:
+        elif x < 0.8:
             p, kinds = G.gen_hoist(rng), [("hoist", None), ("hoistbound", None)]
+        elif x < 0.93:
+            p, kinds = G.gen_replaceiv(rng), [("replaceiv", None)]
         else:
             p = G.gen_generic(rng)
             kinds = [("chunk", rng.choice([None, {"chunksize": 2}, {"chunksize": 3}])), ("fuse", None),
-                     ("swap", None), ("hoist", None), ("hoistbound", None),
+                     ("swap", None), ("hoist", None), ("hoistbound", None), ("replaceiv", None),
                      ("tile2d", rng.choice([None, {"tilesize": 2}, {"tilesize": 3}]))]
         src = p.source()
         try:
-            _, routine = minif.parse_program(src)
+            _, routine = parse5(src)
         except Exception as e:   # generator produced something fparser rejects
             raise common.Infra(f"generated program does not parse: {e}\n{src}")
         for kind, opts in kinds:
@@ -523,7 +604,7 @@ def evaluate(chk, cases, stats, gf_budget, sample_rate=0.04):
     return stats["failing"]
 
 
-UNMODELLED = {"replaceiv": "ReplaceInductionVariablesTrans"}
+UNMODELLED = {}
 
 
 def prepare_unmodelled(payload):
